@@ -13,6 +13,7 @@ import KadDHT.Driver.C02v
 import KadDHT.Driver.C03
 import KadDHT.Driver.C04
 import KadDHT.Driver.C08
+import KadDHT.Driver.C06
 open KadDHT.Driver
 
 def main (args : List String) : IO UInt32 := do
@@ -20,6 +21,8 @@ def main (args : List String) : IO UInt32 := do
   | ["C18"] => runPure C18.handle; return 0
   | ["C18v"] => runPure C18v.handle; return 0
   | ["C19"] => runLoop C19.step {}; return 0
+  | ["C06"] => runLoop C06.step {}; return 0
+  | ["C06v"] => runLoop C06.verdict {}; return 0
   | ["C08"] => runLoop C08.step {}; return 0
   | ["C08v"] => runLoop C08.verdict {}; return 0
   | ["C04v"] => runLoop C04.verdict {}; return 0
